@@ -525,6 +525,25 @@ pub fn bomb_bytes(family: &str, n: usize) -> Vec<u8> {
                 val(&mut b, 0x44, b"same", b"v");
             }
         }
+        "attrs-dupnames" => {
+            // n different names, each occurring twice in one group (fixed-width names: 12 octets per attribute)
+            for pass in 0..2 {
+                for i in 0..n {
+                    val(&mut b, 0x44, format!("d{:05}", i % 100000).as_bytes(), if pass == 0 { b"v" } else { b"w" });
+                }
+            }
+        }
+        "members-dupnames" => {
+            // a collection whose n member names each occur twice
+            val(&mut b, 0x34, b"c", b"");
+            for _pass in 0..2 {
+                for i in 0..n {
+                    val(&mut b, 0x4a, b"", format!("m{:05}", i % 100000).as_bytes());
+                    val(&mut b, 0x21, b"", &[0, 0, 0, 1]);
+                }
+            }
+            val(&mut b, 0x37, b"", b"");
+        }
         "groups" => {
             for i in 0..n {
                 b.push([1u8, 2, 4, 5][i % 4]);
@@ -599,7 +618,9 @@ pub fn bomb_bytes(family: &str, n: usize) -> Vec<u8> {
     b
 }
 
-pub const BOMB_FAMILIES: [(&str, usize); 22] = [
+pub const BOMB_FAMILIES: [(&str, usize); 24] = [
+    ("attrs-dupnames", 24),
+    ("members-dupnames", 40),
     ("groups-attr", 11),
     ("groups-alt-attr", 18),
     ("colls", 26),
